@@ -75,7 +75,7 @@ def mk_cfg(t, d, th=1):
 
 
 def make_engine(schedule, chunk, chains=1, kernels=1, needs_history=(False, False), seed=0, store_kernel_states=False, codes=None,
-                position_keys=None, use_key=False, model_states=None):
+                position_keys=None, use_key=False, model_states=None, minimize_transition_infos=False):
     """Engine built directly (chunk size under our control). Model: dict state {'p0','p1'} with log-prob 0."""
     ks = [RecordingKernel([f"p{i}"], needs_history=needs_history[i], codes=None if codes is None else codes[i], use_key=use_key) for i in range(kernels)]
     model = gs.DictInterface(lambda s: 0.0)
@@ -86,7 +86,8 @@ def make_engine(schedule, chunk, chains=1, kernels=1, needs_history=(False, Fals
         model_states = {f"p{i}": jnp.arange(chains, dtype=jnp.float32) * 100.0 + i * 1000.0 for i in range(2)}
     seeds = jax.random.split(jax.random.PRNGKey(seed), chains)
     return Engine(seeds=seeds, model_states=model_states, kernel_sequence=KernelSequence(ks), epoch_configs=[mk_cfg(*c) for c in schedule],
-                  jitted_sample_duration=chunk, model=model, position_keys=position_keys, store_kernel_states=store_kernel_states, show_progress=False)
+                  jitted_sample_duration=chunk, model=model, position_keys=position_keys, store_kernel_states=store_kernel_states, show_progress=False,
+                  minimize_transition_infos=minimize_transition_infos)
 
 
 def kernel_logs(engine):
